@@ -222,3 +222,294 @@ def _unsup(msg):
 
 
 CONTRACTS = [AnyScalarEq(), BoundsForCache(), TranslatePixel()]
+
+
+# =================================================================================================
+# The cache protocol of compute_fixed_resolution_buffer, on the real function with the numpy steps as opaque, provenance-recording
+# operations.  An array token remembers how it was made (`desc`), so "the result is built from these coordinates / this invalid mask"
+# is a structural equality.
+
+def tok(desc, **fields):
+    """opaque array value; every operation returns a new token whose description nests the operands' descriptions"""
+    fields.setdefault('flags', PObj('flags', fields={'writeable': z3.Bool('array_writeable')}))
+    a = PObj('array', fields=dict(desc=desc, **fields))
+
+    def op(name):
+        def f(I, self_, *args, **kw):
+            return tok((name, self_.fields['desc']) + tuple(_d(x) for x in args))
+        return f
+    for nm in ('__lt__', '__ge__', '__or__', 'astype', '__getitem__'):
+        a.methods[nm] = op(nm)
+
+    def setitem(I, self_, key, value):
+        self_.fields['desc'] = ('setitem', self_.fields['desc'], _d(key), _d(value))
+    a.methods['__setitem__'] = setitem
+    return a
+
+
+def _d(x):
+    if isinstance(x, PObj) and 'desc' in x.fields:
+        return x.fields['desc']
+    if isinstance(x, tuple):
+        return tuple(_d(y) for y in x)
+    if isinstance(x, PList):
+        return tuple(_d(y) for y in x.items)
+    if isinstance(x, PObj):
+        return ('obj', id(x))
+    if is_z3(x):
+        return ('sym', str(x))
+    return x
+
+
+class FrbCacheProtocol(FnContract):
+    property_ids = ('C16',)
+    target = FRB + ":compute_fixed_resolution_buffer"
+    title = ("without a cache id the caches are neither read nor written; an array-cache hit returns the stored array and changes nothing; otherwise each source axis is taken from "
+             "the per-axis cache exactly when its stored bounds match (after dropping a per-axis cache built for another dataset pair), recomputed and stored otherwise with its own "
+             "out-of-range mask and wildcard bounds, the buffer is assembled from these, and both caches are left describing this request")
+    budget_s = 60
+
+    # per bound: 's' scalar, 'r' range.   axes: per source axis 'hit' (matching per-axis entry present), 'stale' (entry with other bounds), 'none'
+    def configs(self, tier):
+        out = [dict(cache='none', what='values', bounds='sr', axes='none,none'), dict(cache='none', what='mask', bounds='rr', axes='none,none')]
+        for what in ('values', 'mask'):
+            out.append(dict(cache='array-hit', what=what, bounds='sr', axes='none,none'))
+            out.append(dict(cache='array-other-request', what=what, bounds='sr', axes='hit,hit'))
+        for axes in ('none,none', 'hit,hit', 'hit,none', 'stale,hit', 'none,stale'):
+            for b in ('sr', 'rr', 'ss'):
+                out.append(dict(cache='empty-array-cache', what='values', bounds=b, axes=axes))
+        out.append(dict(cache='pixel-other-pair', what='values', bounds='sr', axes='hit,hit'))
+        out.append(dict(cache='pixel-other-pair', what='mask', bounds='rr', axes='hit,none'))
+        out.append(dict(cache='pixel-other-pair-no-array-entry', what='values', bounds='sr', axes='hit,hit'))
+        return out
+
+    def inputs(self, cfg, P):
+        nt = len(cfg['bounds'])                    # rank of the reference frame
+        ns = 2                                     # rank of the source
+        axes = cfg['axes'].split(',')
+        target = PObj('Data', fields={'ndim': nt, '__bases__': ('Data',), 'name': 'target'})
+        data = PObj('Data', fields={'ndim': ns, '__bases__': ('Data',), 'name': 'data', 'shape': tuple(z3.Int('extent%d' % i) for i in range(ns)),
+                                    'pixel_component_ids': PList([PObj('PixelComponentID', fields={'axis': i}) for i in range(ns)]), 'main_components': PList([])})
+        other = PObj('Data', fields={'ndim': nt, '__bases__': ('Data',), 'name': 'other-target'})
+        bounds = []
+        for i, k in enumerate(cfg['bounds']):
+            if k == 's':
+                bounds.append(PObj('scalar-bound', fields={'is_scalar': True, 'desc': ('scalar', i)}))
+            else:
+                bounds.append((z3.Real('lo%d' % i), z3.Real('hi%d' % i), z3.Int('n%d' % i)))
+        bounds = PList(bounds)
+        cid = PObj('ComponentID', fields={'uuid': 'UUID-of-the-attribute'})
+        state = PObj('SubsetState')
+        comp = PObj('Component', fields={'__bases__': ('Component',)})
+        data.methods['get_component'] = lambda I, self_, c: comp
+        st = St(cfg=cfg, nt=nt, ns=ns, data=data, target=target, other=other, bounds=bounds, cid=cid, state=state, axes=axes,
+                translated=[], fetched=[], cache_id=None if cfg['cache'] == 'none' else 'ID', wild=[])
+        data.methods['get_data'] = lambda I, self_, c, view=None: self._fetch(st, 'get_data', c, view)
+        data.methods['get_mask'] = lambda I, self_, s, view=None: self._fetch(st, 'get_mask', s, view)
+        # ---- caches before the call
+        AC, PC = {}, {}
+        key = cid.fields['uuid'] if cfg['what'] == 'values' else state
+
+        def wild():
+            w = PObj('AnyScalar', fields={'desc': 'wildcard'})
+            w.methods['__eq__'] = lambda I, self_, o: bool(isinstance(o, PObj) and o.fields.get('is_scalar'))
+            return w
+        st.mkwild = wild
+        # dimensions each source axis depends on (what translate_pixel reports): axis 0 <- reference axis nt-1, axis 1 <- reference axis 0
+        st.dims = [[nt - 1], [0]]
+
+        def cached_bounds(dims, matching=True):
+            out = []
+            for i, b in enumerate(bounds.items):
+                if isinstance(b, PObj):
+                    out.append(wild() if i not in dims else (b if matching else PObj('scalar-bound', fields={'is_scalar': True, 'desc': ('other-scalar', i)})))
+                else:
+                    out.append(b if matching else (b[0], b[1], b[2] + 1))
+            return PList(out)
+        st.stored_array = tok(('stored-array',))
+        if cfg['cache'] == 'array-hit':
+            AC['ID'] = {'hash': (data, cached_bounds(sorted(set(sum(st.dims, [])))), target, key, True), 'array': st.stored_array}
+        if cfg['cache'] == 'array-other-request':
+            AC['ID'] = {'hash': (data, cached_bounds(sorted(set(sum(st.dims, [])))), target, PObj('another-key'), True), 'array': st.stored_array}
+        if cfg['cache'] in ('pixel-other-pair',):
+            AC['ID'] = {'hash': (data, cached_bounds([]), other, key, True), 'array': st.stored_array}
+        st.cached_axes = {}
+        if cfg['cache'] != 'none' and any(a != 'none' for a in axes):
+            pair = (data, other) if cfg['cache'].startswith('pixel-other-pair') else (data, target)
+            PC['ID'] = {'hash': pair}
+            for ipix, a in enumerate(axes):
+                if a == 'none':
+                    continue
+                ent = {'translated_coord': tok(('cached-coord', ipix)), 'dimensions': PList(list(st.dims[ipix])), 'invalid': tok(('cached-invalid', ipix)),
+                       'bounds': cached_bounds(st.dims[ipix], matching=(a == 'hit'))}
+                PC['ID'][ipix] = ent
+                st.cached_axes[ipix] = ent
+        st.AC, st.PC = AC, PC
+        st.AC0 = {k: dict(v) for k, v in AC.items()}
+        st.PC0 = {k: dict(v) for k, v in PC.items()}
+        kw = dict(target_data=target, broadcast=True, cache_id=st.cache_id)
+        if cfg['what'] == 'values':
+            kw['target_cid'] = cid
+        else:
+            kw['subset_state'] = state
+        return Inputs([data, bounds], kw, st=st)
+
+    @staticmethod
+    def _fetch(st, how, what, view):
+        t = tok((how, _d(what), _d(view)))
+        st.fetched.append((how, what, view, t))
+        return t
+
+    def requires(self, cfg, st):
+        return [('steps>=1', S.And(*[b[2] >= 1 for b in st.bounds.items if isinstance(b, tuple)]))] if any(isinstance(b, tuple) for b in st.bounds.items) else []
+
+    def globals_(self, cfg, st):
+        def b_isinstance(I, v, t):
+            ts = t if isinstance(t, tuple) else (t,)
+            for x in ts:
+                nm = getattr(x, 'name', None)
+                if nm == 'tuple' and isinstance(v, tuple):
+                    return True
+                if isinstance(v, PObj) and nm in v.fields.get('__bases__', ()):
+                    return True
+            return False
+
+        def translate(I, target_data, pixel_coords, pix):
+            ipix = pix.fields['axis']
+            I.path.check(I.hooks.name + "/translate_pixel:called-on-the-reference-frame", target_data is st.target)
+            t = tok(('translated', ipix, _d(pixel_coords)))
+            st.translated.append(ipix)
+            return (t, PList(list(st.dims[ipix])))
+
+        def np1(name):
+            return Builtin('np.' + name, lambda I, *a, **k: tok((name,) + tuple(_d(x) for x in a)))
+
+        def meshgrid(I, *a, **k):
+            return PList([tok(('grid', i, tuple(_d(x) for x in a)), shape=('original-shape', tuple(_d(x) for x in a))) for i in range(len(a))])
+
+        def zeros(I, shape, dtype=None):
+            return tok(('zeros', _d(shape)))
+
+        def mkwild(I):
+            w = st.mkwild()
+            st.wild.append(w)
+            return w
+        g = {'isinstance': Builtin('isinstance', b_isinstance), 'Data': PType('Data'), 'DaskComponent': PType('DaskComponent'),
+             'translate_pixel': Builtin('translate_pixel', translate), 'unbroadcast': np1('unbroadcast'),
+             'numpy.linspace': np1('linspace'), 'numpy.meshgrid': Builtin('np.meshgrid', meshgrid), 'numpy.zeros': Builtin('np.zeros', zeros),
+             'numpy.round': np1('round'), 'numpy.broadcast_to': np1('broadcast_to'), 'numpy.isscalar': Builtin('np.isscalar', lambda I, v: bool(isinstance(v, PObj) and v.fields.get('is_scalar'))),
+             'numpy.any': Builtin('np.any', lambda I, a: z3.Bool('some_sample_outside')), 'numpy.array': np1('array'), 'numpy.nan': 'NAN',
+             'ARRAY_CACHE': st.AC, 'PIXEL_CACHE': st.PC, 'AnyScalar': Builtin('AnyScalar', mkwild), 'int': PType('int'), 'float': PType('float'), 'bool': PType('bool'),
+             'IncompatibleDataException': PType('IncompatibleDataException'),
+             'type': Builtin('type', lambda I, v: PType('bool') if isinstance(v, bool) else PType('float'))}
+        # bounds_for_cache: the real helper, inlined from its own text (it is under its own contract above)
+        ft = FunctionText(FRB, 'bounds_for_cache')
+
+        def bfc(I, bounds, dimensions):
+            sub = Interp(I.path, I.globals, Hooks(name=I.hooks.name), ft)
+            return sub.run_function(ft, [bounds, dimensions], {})
+        g['bounds_for_cache'] = Builtin('bounds_for_cache', bfc)
+        return g
+
+    # ------------------------------------------------------------------------------------------
+    def ensures(self, cfg, st, result):
+        out = []
+        AC, PC = st.AC, st.PC
+        c = cfg['cache']
+
+        def same_dicts(a, b):
+            return set(a) == set(b) and all(set(a[k]) == set(b[k]) and all(a[k][f] is b[k][f] for f in a[k]) for k in a)
+        if c == 'none':
+            out.append(('no-cache-id:array-cache-untouched', same_dicts(AC, st.AC0)))
+            out.append(('no-cache-id:pixel-cache-untouched', same_dicts(PC, st.PC0)))
+            out.append(('no-cache-id:every-axis-translated', sorted(st.translated) == list(range(st.ns))))
+        if c == 'array-hit':
+            out.append(('hit:returns-the-stored-array', result is st.stored_array))
+            out.append(('hit:nothing-recomputed', st.translated == [] and st.fetched == []))
+            out.append(('hit:caches-unchanged', same_dicts(AC, st.AC0) and same_dicts(PC, st.PC0)))
+            return out
+        # ---- a computed result
+        out.append(('computed:not-the-stale-array', result is not st.stored_array))
+        use_cached = {}
+        for ipix in range(st.ns):
+            a = st.axes[ipix] if c != 'none' else 'none'
+            use_cached[ipix] = (a == 'hit') and not c.startswith('pixel-other-pair')
+        out.append(('per-axis-cache:axes-translated-exactly-when-no-matching-entry', sorted(st.translated) == [i for i in range(st.ns) if not use_cached[i]]))
+        # provenance of the fetch
+        ok_fetch = len(st.fetched) == 1 and st.fetched[0][0] == ('get_data' if cfg['what'] == 'values' else 'get_mask') and \
+            st.fetched[0][1] is (st.cid if cfg['what'] == 'values' else st.state)
+        out.append(('values-or-membership-fetched-once-for-the-requested-attribute-or-selection', ok_fetch))
+        if ok_fetch:
+            view = st.fetched[0][2]
+            ok_view = isinstance(view, tuple) and len(view) == st.ns
+            out.append(('fetched-at-one-coordinate-array-per-source-axis', ok_view))
+            if ok_view:
+                for ipix in range(st.ns):
+                    d = _d(view[ipix])
+                    src = ('cached-coord', ipix) if use_cached[ipix] else 'translated'
+                    out.append(('axis-%d-coordinates-come-from-%s' % (ipix, 'the-matching-cache-entry' if use_cached[ipix] else 'translate_pixel'),
+                                _contains(d, ('cached-coord', ipix)) if use_cached[ipix] else _contains_head(d, 'translated', ipix)))
+        if c != 'none':
+            key = st.cid.fields['uuid'] if cfg['what'] == 'values' else st.state
+            ent = AC.get('ID')
+            ok = isinstance(ent, dict) and set(ent) == {'hash', 'array'} and ent['array'] is result
+            out.append(('array-cache:holds-this-result', ok))
+            if ok:
+                h = ent['hash']
+                okh = isinstance(h, tuple) and len(h) == 5 and h[0] is st.data and h[2] is st.target and h[3] is key and h[4] is True
+                out.append(('array-cache:key-names-this-dataset-frame-attribute-and-broadcast', okh))
+                if okh:
+                    dims_all = sorted(set(sum(st.dims, [])))
+                    out += self._bounds_clause('array-cache', h[1], st, dims_all)
+            pe = PC.get('ID')
+            okp = isinstance(pe, dict) and pe.get('hash') is not None and pe['hash'][0] is st.data and pe['hash'][1] is st.target
+            out.append(('pixel-cache:belongs-to-this-dataset-pair', okp))
+            if okp:
+                for ipix in range(st.ns):
+                    e = pe.get(ipix)
+                    if use_cached[ipix]:
+                        out.append(('pixel-cache:axis-%d-entry-kept' % ipix, e is st.cached_axes[ipix]))
+                        continue
+                    oke = isinstance(e, dict) and set(e) == {'translated_coord', 'dimensions', 'invalid', 'bounds'}
+                    out.append(('pixel-cache:axis-%d-entry-written' % ipix, oke))
+                    if oke:
+                        out.append(('pixel-cache:axis-%d-coordinates-are-this-axis-translation' % ipix, _contains_head(_d(e['translated_coord']), 'translated', ipix)))
+                        inv = _d(e['invalid'])
+                        out.append(('pixel-cache:axis-%d-invalid-is-this-axis-own-out-of-range-mask' % ipix,
+                                    _contains_head(inv, 'translated', ipix) and not any(_contains_head(inv, 'translated', j) or _contains(inv, ('cached-invalid', j)) for j in range(st.ns) if j != ipix)
+                                    and not _contains(inv, 'zeros')))
+                        out.append(('pixel-cache:axis-%d-dimensions-as-reported' % ipix, isinstance(e['dimensions'], PList) and e['dimensions'].items == st.dims[ipix]))
+                        out += self._bounds_clause('pixel-cache:axis-%d' % ipix, e['bounds'], st, st.dims[ipix])
+        return out
+
+    @staticmethod
+    def _bounds_clause(tag, cb, st, dims):
+        if not (isinstance(cb, PList) and len(cb.items) == st.nt):
+            return [(tag + ':one-stored-bound-per-reference-axis', False)]
+        out = []
+        for i, (x, b) in enumerate(zip(cb.items, st.bounds.items)):
+            is_wild = isinstance(x, PObj) and x.cls == 'AnyScalar'
+            want = isinstance(b, PObj) and i not in dims
+            # soundness direction only: a wildcard may stand only for a scalar bound on an axis that did not contribute; storing the bound
+            # itself where a wildcard would do merely makes the cache match less often
+            out.append((tag + ':bound-%d-%s' % (i, 'wildcard-or-kept' if want else 'is-kept'), (is_wild or x is b) if want else (x is b)))
+        return out
+
+
+def _contains(d, needle):
+    if d == needle:
+        return True
+    if isinstance(d, tuple):
+        return any(_contains(x, needle) for x in d)
+    return False
+
+
+def _contains_head(d, head, arg):
+    if isinstance(d, tuple) and len(d) >= 2 and d[0] == head and d[1] == arg:
+        return True
+    if isinstance(d, tuple):
+        return any(_contains_head(x, head, arg) for x in d)
+    return False
+
+
+CONTRACTS.append(FrbCacheProtocol())
